@@ -107,7 +107,11 @@ let () =
               end
           | JObsErr e ->
               if not res_err then mismatch id "result" ("ok " ^ String.concat " " docs_hex) ("error " ^ string_of_jerr e)
-              else if all_docs && c.jrerr = false then incr errs_no_bad
+              else if all_docs && c.jrerr = false then begin
+                (* every line is a JSON object, the source delivered them all, and the call failed (the model says so too:
+                   the dynamic collector behind it refuses a value whose numeric type changed): known finding *)
+                incr errs_no_bad;
+                Printf.printf "KNOWN json-type-change case=%s error on a stream of %d well-formed lines (%s)\n" id (List.length lines) (string_of_jerr e) end
           | JObsUnreadable -> mismatch id "model output unreadable by model reader" "" ""
           | JObsStuck -> mismatch id "model schedule stuck" "" "")
        with Missing_token h ->
